@@ -141,7 +141,7 @@ def check_parse(repo_src, rnd, table=None, inputs=None):
                 out.append(_disc('parse', ['C05', 'C10'], c, 'Err (%s)' % exp[1], r.get('ast'), 'malformed input is accepted'))
             elif exp[0] == 'ok' and r.get('ast') != exp[1]:
                 out.append(_disc('parse', ['C02', 'C10', 'C09'], c, exp[1], r.get('ast'), 'the AST differs from the documented grouping / token text'))
-        if r.get('ok') and exp is not None and exp[0] == 'ok' and r.get('ast') == exp[1]:
+        if r.get('ok') and exp is not None and exp[0] == 'ok':
             try:
                 dd = oracle.describe(ast)
                 if r.get('describe') != dd:
